@@ -1,38 +1,59 @@
 /-
   C17 — integer and real vector individuals (GA / DE) follow their operator definitions.
 
-  Model of
-    src/kernel/ga/primitive.h   ga::integer / ga::real  `init() = random::in(range)`
-    src/kernel/ga/i_ga.cc       i_ga(problem), i_ga::mutation, crossover(lhs, rhs)
-    src/kernel/ga/i_de.cc       i_de(problem), i_de::crossover(p, f, a, b, c)
-    src/kernel/individual.tcc   set_older_age
-  with every random choice an explicit argument:
-    * an integer draw is a raw natural `u`; `pick r u = r.lo + u % (r.hi − r.lo)` ranges over exactly
-      the values of `[r.lo, r.hi)` – this is the *contract* of `std::uniform_int_distribution`
-      (`random::between(lo, hi) ∈ [lo, hi)`), not its algorithm;
-    * a Bernoulli draw (`random::boolean(p)`) is a Boolean;
-    * the DE weight `F` and the canonical uniform `u ∈ [0,1)` of a real draw are explicit values.
-  One interval per position (what `ga_problem` / `de_problem` build: one terminal per category).
+  Two layers.
+
+  A. SPECIFICATION functions, hand-written, with every random choice an explicit argument (the property's own
+     reading of the operators): `pick`, `gaCreate`, `gaMutate`, `cuts`/`splice`/`gaCrossover`, `trial`/`deCrossover`,
+     `olderAge`, `realInit`.
+
+  B. The MEANING of the syntax extracted from the clang AST (`Code.lean`, values in the generated `Gen.lean`):
+     `AgeCode.*` (machine-typed ages), `RandInt.between/sup/in_`, `InitCode.drawInt`, `CtorCode.term`,
+     `MutCode.run`, `XoCode.run`, `DeXoCode.run`, `Coord.denote`, `DeRunCode.run`, `GaRunCode.*`.
+     Integer parts are evaluated with `M.evalM` (what the machine computes at the extracted types).
+
+  Props.lean proves that B applied to the generated values refines A (no wrap, no lost conversion, same indices,
+  same individuals) and proves the property for A – hence for the code the values were extracted from.
+
+  A draw is a raw natural `u`; `uniformInt a b u = a + u % (b − a + 1)` ranges over exactly `[a, b]` – the
+  *contract* of `std::uniform_int_distribution`, not its algorithm (the algorithm: `int_draw_in_range`).
+  A Bernoulli draw (`random::boolean(p)`) is a Boolean; the DE weight `F` is an explicit value.
 -/
+import Vita.C17.Code
 namespace Vita.C17
+open Vita.C17.M Vita.C17.Code
 
-/-! ## integer vectors (i_ga) -/
+/-! ## A. specification -/
 
-/-- half-open interval `[lo, hi)` of a position (`ga::detail::number<int>::range_`) -/
+/-- half-open interval `[lo, hi)` of one terminal (`ga::detail::number<int>::range_`) -/
 structure Iv where
   lo : Int
   hi : Int
 deriving DecidableEq, Repr
 
-/-- `Expects(r.first < r.second)` of every declared interval -/
-def Declared (rs : List Iv) : Prop := ∀ r ∈ rs, r.lo < r.hi
+/-- the terminals of one category: a gene of that position is drawn from one of them -/
+abbrev Slot := List Iv
+
+/-- `Expects(r.first < r.second)` of every declared interval, endpoints are `int`s, every category has a terminal -/
+def Declared (ss : List Slot) : Prop :=
+  ∀ s ∈ ss, s ≠ [] ∧ ∀ r ∈ s, r.lo < r.hi ∧ In .i32 r.lo ∧ In .i32 r.hi
 
 /-- `ga::integer::init()` for a raw draw `u` -/
 def pick (r : Iv) (u : Nat) : Int := r.lo + (u : Int) % (r.hi - r.lo)
 
-/-- every gene inside the half-open interval of its position -/
-def InRange (rs : List Iv) (g : List Int) : Prop :=
-  g.length = rs.length ∧ ∀ i (h : i < g.length) (h' : i < rs.length), rs[i].lo ≤ g[i] ∧ g[i] < rs[i].hi
+/-- `roulette_terminal(c).init()`: terminal `k` of the category (roulette draw), then its `init()` -/
+def pickS (s : Slot) (k u : Nat) : Int :=
+  match s[k % s.length]? with
+  | some r => pick r u
+  | none => 0
+
+def InSlot (s : Slot) (v : Int) : Prop := ∃ r ∈ s, r.lo ≤ v ∧ v < r.hi
+
+instance (s : Slot) (v : Int) : Decidable (InSlot s v) := by unfold InSlot; exact inferInstance
+
+/-- every gene inside (one of) the half-open interval(s) of its position -/
+def InRange (ss : List Slot) (g : List Int) : Prop :=
+  g.length = ss.length ∧ ∀ i (h : i < g.length) (h' : i < ss.length), InSlot ss[i] g[i]
 
 structure Ga where
   genome : List Int
@@ -40,12 +61,12 @@ structure Ga where
 deriving DecidableEq, Repr
 
 /-- `i_ga::i_ga(const problem &)`: position `i` gets `roulette_terminal(i).init()`; age 0 -/
-def gaCreate (rs : List Iv) (u : Nat → Nat) : Ga :=
-  ⟨rs.mapIdx fun i r => pick r (u i), 0⟩
+def gaCreate (ss : List Slot) (ch u : Nat → Nat) : Ga :=
+  ⟨ss.mapIdx fun i s => pickS s (ch i) (u i), 0⟩
 
 /-- genome after `i_ga::mutation(pgm, prb)`: position `i` is redrawn iff `random::boolean(pgm)` (`flip i`) -/
-def mutGenome (rs : List Iv) (flip : Nat → Bool) (u : Nat → Nat) (g : List Int) : List Int :=
-  g.mapIdx fun i x => if flip i then (match rs[i]? with | some r => pick r (u i) | none => x) else x
+def mutGenome (ss : List Slot) (flip : Nat → Bool) (ch u : Nat → Nat) (g : List Int) : List Int :=
+  g.mapIdx fun i x => if flip i then (match ss[i]? with | some s => pickS s (ch i) (u i) | none => x) else x
 
 /-- number of positions in which two genomes differ (`i_ga::distance`) -/
 def countDiff : List Int → List Int → Nat
@@ -53,8 +74,8 @@ def countDiff : List Int → List Int → Nat
   | _, _ => 0
 
 /-- `i_ga::mutation`: (individual, returned number of changed genes) -/
-def gaMutate (rs : List Iv) (flip : Nat → Bool) (u : Nat → Nat) (x : Ga) : Ga × Nat :=
-  let g := mutGenome rs flip u x.genome
+def gaMutate (ss : List Slot) (flip : Nat → Bool) (ch u : Nat → Nat) (x : Ga) : Ga × Nat :=
+  let g := mutGenome ss flip ch u x.genome
   (⟨g, x.age⟩, countDiff x.genome g)
 
 /-- `cut1 = random::sup(ps − 1)`, `cut2 = random::between(cut1 + 1, ps)` for raw draws `u1 u2` -/
@@ -66,7 +87,7 @@ def cuts (n u1 u2 : Nat) : Nat × Nat :=
 def splice (l r : List Int) (c1 c2 : Nat) : List Int :=
   r.mapIdx fun i y => if c1 ≤ i ∧ i < c2 then (match l[i]? with | some x => x | none => y) else y
 
-/-- `individual::set_older_age` -/
+/-- `individual::set_older_age` on ideal (unbounded) ages -/
 def olderAge (age rhs : Nat) : Nat := if age < rhs then rhs else age
 
 /-- `crossover(const i_ga &lhs, const i_ga &rhs)` -/
@@ -74,7 +95,7 @@ def gaCrossover (u1 u2 : Nat) (l r : Ga) : Ga :=
   let (c1, c2) := cuts r.genome.length u1 u2
   ⟨splice l.genome r.genome c1 c2, olderAge r.age l.age⟩
 
-/-! ## real vectors (i_de), generic in the number type and its (rounded) arithmetic -/
+/-! ### real vectors (i_de), generic in the number type and its (rounded) arithmetic -/
 
 structure Arith (F : Type) where
   add : F → F → F
@@ -106,18 +127,17 @@ def deCrossover {F} (A : Arith F) (rf : F) (flip : Nat → Bool) (target a b c :
     arithmetic (ℚ) – the idealised reading used by `de_in_box`. -/
 def realInit (lo hi u : Rat) : Rat := lo + (hi - lo) * u
 
+/-! ### everything reachable by the integer operators -/
+inductive Reach (ss : List Slot) : Ga → Prop
+  | create (ch u) : Reach ss (gaCreate ss ch u)
+  | mutate (flip ch u x) : Reach ss x → Reach ss (gaMutate ss flip ch u x).1
+  | cross (u1 u2 l r) : Reach ss l → Reach ss r → Reach ss (gaCrossover u1 u2 l r)
 
-/-! ## everything reachable by the integer operators -/
-inductive Reach (rs : List Iv) : Ga → Prop
-  | create (u) : Reach rs (gaCreate rs u)
-  | mutate (flip u x) : Reach rs x → Reach rs (gaMutate rs flip u x).1
-  | cross (u1 u2 l r) : Reach rs l → Reach rs r → Reach rs (gaCrossover u1 u2 l r)
-
-/-! ## step relations decided by the driver on observed executions (integer side) -/
+/-! ### step relations decided by the driver on observed executions (integer side) -/
 
 /-- observed `i_ga::mutation`: length and age kept, genes in range, returned count = changed genes -/
-def MutStep (rs : List Iv) (pre post : Ga) (ret : Nat) : Prop :=
-  post.genome.length = pre.genome.length ∧ post.age = pre.age ∧ InRange rs post.genome ∧
+def MutStep (ss : List Slot) (pre post : Ga) (ret : Nat) : Prop :=
+  post.genome.length = pre.genome.length ∧ post.age = pre.age ∧ InRange ss post.genome ∧
   ret = countDiff pre.genome post.genome
 
 /-- observed `crossover(lhs, rhs)`: the cut points the code can draw explain the child -/
@@ -126,5 +146,222 @@ def XoStep (l r child : Ga) : Prop :=
   ∃ c1, c1 < r.genome.length - 1 ∧ ∃ c2, c2 < r.genome.length ∧ c1 < c2 ∧
     ∀ i, i < r.genome.length →
       child.genome[i]? = if c1 ≤ i ∧ i < c2 then l.genome[i]? else r.genome[i]?
+
+/-- observed `recombination::base<i_ga>::run`: `p1` = pop[parent[0]], `cands` = the individuals the second parent can
+    be (pop[parent[1]], or the whole layer when the tournament has size 1), `dcross` / `dmut` = what the call added
+    to `summary::crossovers` / `summary::mutations` -/
+def GsStep (ss : List Slot) (brood : Nat) (p1 : Ga) (cands : List Ga) (off : Ga) (dcross dmut : Nat) : Prop :=
+  InRange ss off.genome ∧
+  if dcross = 0 then
+    ∃ p ∈ p1 :: cands, off.age = p.age ∧ off.genome.length = p.genome.length ∧
+      countDiff p.genome off.genome = dmut
+  else
+    dcross = brood ∧ ∃ p2 ∈ cands, off.age = max p1.age p2.age ∧ off.genome.length = p2.genome.length ∧
+      (dmut = 0 → XoStep p1 p2 off)
+
+/-! ## B. meaning of the extracted syntax -/
+
+/-! ### ages at the machine types of the code -/
+
+/-- what `age()` returns for the stored value `s` -/
+def Code.AgeCode.read (c : AgeCode) (s : Int) : Int := evalM (envOf [s]) c.get
+/-- the stored value after `inc_age()` -/
+def Code.AgeCode.incr (c : AgeCode) (s : Int) : Int := evalM (envOf [s]) c.inc
+/-- the stored value after `set_older_age(r)`; the argument is first converted to the parameter's type -/
+def Code.AgeCode.older (c : AgeCode) (s r : Int) : Int :=
+  let p := c.paramTy.wrap r
+  if evalM (envOf [s, p]) c.olderCond ≠ 0 then evalM (envOf [s, p]) c.olderNew else s
+/-- the stored value after a successful `load` of the number `v` (`in >> tmp` fails when `v` does not fit `tmp`) -/
+def Code.AgeCode.load (c : AgeCode) (v : Int) : Option Int :=
+  if In c.tmpTy v then some (evalM (envOf [0, v]) c.loadNew) else none
+
+/-- the history of one individual's age -/
+inductive AgeOp
+  | inc                 -- inc_age()
+  | load (v : Nat)      -- load() of a stream that starts with v
+  | older (r : Nat)     -- set_older_age(r), r = age() of another individual
+  deriving Repr
+
+/-- the number of generations the individual has lived (ideal) -/
+def AgeOp.ideal : Nat → AgeOp → Nat
+  | a, .inc => a + 1
+  | _, .load v => v
+  | a, .older r => max a r
+
+/-- what the code stores -/
+def AgeOp.machine (c : AgeCode) : Int → AgeOp → Int
+  | s, .inc => c.incr s
+  | s, .load v => (c.load v).getD s
+  | s, .older r => c.older s r
+
+/-! ### random.h -/
+
+/-- `std::uniform_int_distribution<T>(a, b)(engine)` by contract: a value of `[a, b]` -/
+def uniformInt (a b : Int) (u : Nat) : Int := a + (u : Int) % (b - a + 1)
+
+def Code.RandInt.between (rc : RandInt) (min sup : Int) (u : Nat) : Int :=
+  uniformInt (evalM (envOf [min, sup]) rc.betA) (evalM (envOf [min, sup]) rc.betB) u
+
+def Code.RandInt.sup (rc : RandInt) (x : Int) (u : Nat) : Int :=
+  rc.between (evalM (envOf [x]) rc.supA) (evalM (envOf [x]) rc.supB) u
+
+def Code.RandInt.in_ (rc : RandInt) (first second : Int) (u : Nat) : Int :=
+  rc.between (evalM (envOf [first, second]) rc.inA) (evalM (envOf [first, second]) rc.inB) u
+
+def Code.Draw.eval (rc : RandInt) (env : List Int) (u : Nat) : Draw → Int
+  | .sup e => rc.sup (evalM (envOf env) e) u
+  | .between a b => rc.between (evalM (envOf env) a) (evalM (envOf env) b) u
+
+/-- `number<int>::init()` (the detour through `terminal_param_t` = double and back is value preserving for
+    32-bit integers: trusted, observed by the tie) -/
+def Code.InitCode.drawInt (ic : InitCode) (rc : RandInt) (r : Iv) (u : Nat) : Int :=
+  match ic.src with
+  | .inRange => rc.in_ r.lo r.hi u
+
+/-! ### lists indexed by machine integers -/
+def getI {α} [Inhabited α] (l : List α) (i : Int) : α := if 0 ≤ i then l.getD i.toNat default else default
+def setI {α} (l : List α) (i : Int) (v : α) : List α := if 0 ≤ i then l.set i.toNat v else l
+
+/-- `for (i = lo; i < hi; ++i) body(i)` -/
+def forRange {σ} (lo hi : Int) (body : Int → σ → σ) (s : σ) : σ :=
+  (List.range' lo.toNat (hi.toNat - lo.toNat)).foldl (fun st (i : Nat) => body (i : Int) st) s
+
+/-! ### constructors -/
+
+/-- value of the captured counter before the `k`-th call of the generator -/
+def Code.CtorCode.counter (c : CtorCode) : Nat → Int
+  | 0 => evalM (envOf []) c.counterInit
+  | k + 1 => evalM (envOf [c.counter k]) c.counterNext
+
+/-- category whose terminal initialises gene `k` -/
+def Code.CtorCode.term (c : CtorCode) (k : Nat) : Int := evalM (envOf [c.counter k]) c.termIdx
+
+def slotAt (ss : List Slot) (i : Int) : Slot := if 0 ≤ i then ss.getD i.toNat [] else []
+
+/-- draw of `roulette_terminal(cat).init()` as extracted: `number<int>::init` through random.h -/
+def drawGene (ic : InitCode) (rc : RandInt) (s : Slot) (k u : Nat) : Int :=
+  match s[k % s.length]? with
+  | some r => ic.drawInt rc r u
+  | none => 0
+
+def Code.CtorCode.run (c : CtorCode) (ic : InitCode) (rc : RandInt) (ss : List Slot) (ch u : Nat → Nat) : Ga :=
+  ⟨(List.range ss.length).map fun k => drawGene ic rc (slotAt ss (c.term k)) (ch k) (u k), 0⟩
+
+/-! ### i_ga::mutation -/
+def Code.MutCode.step (c : MutCode) (ic : InitCode) (rc : RandInt) (ss : List Slot) (flip : Nat → Bool)
+    (ch u : Nat → Nat) (ps : Int) (i : Int) (st : List Int × Nat) : List Int × Nat :=
+  if flip i.toNat then
+    let env := envOf [ps, i]
+    let g := drawGene ic rc (slotAt ss (evalM env c.termIdx)) (ch i.toNat) (u i.toNat)
+    let old := getI st.1 (evalM env c.cmpIdx)
+    if (g != old) == c.cmpIsNe then (setI st.1 (evalM env c.dstIdx) g, st.2 + 1) else st
+  else st
+
+def Code.MutCode.run (c : MutCode) (ic : InitCode) (rc : RandInt) (ss : List Slot) (flip : Nat → Bool)
+    (ch u : Nat → Nat) (x : Ga) : Ga × Nat :=
+  let ps : Int := x.genome.length
+  let r := forRange (evalM (envOf [ps]) c.from_) (evalM (envOf [ps]) c.to_)
+    (c.step ic rc ss flip ch u ps) (x.genome, 0)
+  (⟨r.1, x.age⟩, (c.counterTy.wrap r.2).toNat)
+
+/-! ### crossover(lhs, rhs) -/
+def Code.XoCode.run (c : XoCode) (T : AgeCode) (rc : RandInt) (u1 u2 : Nat) (l r : Ga) : Ga :=
+  let who : Who → Ga := fun w => match w with | .lhs => l | .rhs => r | _ => ⟨[], 0⟩
+  let ps : Int := (who c.psOf).genome.length
+  let cut1 := c.cut1.eval rc [ps] u1
+  let cut2 := c.cut2.eval rc [ps, cut1] u2
+  let base := who c.copyOf
+  let env := [ps, cut1, cut2]
+  let g := forRange (evalM (envOf env) c.from_) (evalM (envOf env) c.to_)
+    (fun i st => setI st (evalM (envOf (env ++ [i])) c.dstIdx)
+                   (getI (who c.src).genome (evalM (envOf (env ++ [i])) c.srcIdx))) base.genome
+  ⟨g, (T.older base.age (T.read (who c.ageOf).age)).toNat⟩
+
+/-! ### i_de::crossover -/
+def Code.RE.eval {F} [Inhabited F] (A : Arith F) (rf : F) (who : Who → List F) (cur : F) (env : Env) : RE → F
+  | .rf => rf
+  | .gene w idx => getI (who w) (evalM env idx)
+  | .cur => cur
+  | .add x y => A.add (x.eval A rf who cur env) (y.eval A rf who cur env)
+  | .sub x y => A.sub (x.eval A rf who cur env) (y.eval A rf who cur env)
+  | .mul x y => A.mul (x.eval A rf who cur env) (y.eval A rf who cur env)
+  | .par _ | .draw | .nextafter _ _ | .iteLt _ _ _ _ => default
+
+def Code.Assign.exec {F} [Inhabited F] (a : Assign) (A : Arith F) (rf : F) (who : Who → List F) (env : List Int)
+    (st : List F) : List F :=
+  let i := evalM (envOf env) a.idx
+  setI st i (a.val.eval A rf who (getI st i) (envOf env))
+
+def Code.DeXoCode.run {F} [Inhabited F] (c : DeXoCode) (T : AgeCode) (A : Arith F) (rf : F) (flip : Nat → Bool)
+    (t a b cc : De F) : De F :=
+  let ind : Who → De F := fun w => match w with | .self => t | .a => a | .b => b | .c => cc | _ => ⟨[], 0⟩
+  let who : Who → List F := fun w => (ind w).genome
+  let ps : Int := (ind c.psOf).genome.length
+  let base := ind c.copyOf
+  let g := forRange (evalM (envOf [ps]) c.from_) (evalM (envOf [ps]) c.to_)
+    (fun i st => if flip i.toNat then c.thenA.exec A rf who [ps, i] st else c.elseA.exec A rf who [ps, i] st)
+    base.genome
+  let g := c.lastA.exec A rf who [ps] g
+  let oldest := (c.ageOf.map fun w => T.read (ind w).age).foldl max 0
+  ⟨g, (T.older base.age oldest).toNat⟩
+
+/-! ### recombination strategies: which individuals, which configuration -/
+
+/-- the population coordinates a strategy expression can denote, given the selected parents (`sel`), the
+    population size `n` and the mating zone predicate -/
+inductive Code.Coord.Denotes (sel : List Nat) (n : Nat) : Coord → Nat → Prop
+  | parent (k i) : sel[k]? = some i → Denotes sel n (.parent k) i
+  | pickup (near j i) : Denotes sel n near j → i < n → Denotes sel n (.pickup near) i
+  | ifT (gt t e i) : sel.length > gt → Denotes sel n t i → Denotes sel n (.ifParents gt t e) i
+  | ifE (gt t e i) : ¬ sel.length > gt → Denotes sel n e i → Denotes sel n (.ifParents gt t e) i
+  | flipT (t e i) : Denotes sel n t i → Denotes sel n (.flip t e) i
+  | flipE (t e i) : Denotes sel n e i → Denotes sel n (.flip t e) i
+
+/-- the configuration of a run (`environment`) -/
+structure RunEnv where
+  pMutationPositive : Bool      -- env.p_mutation > 0
+  brood : Nat                   -- env.brood_recombination
+
+/-- zero or more `mutation` calls on an individual; `n` = sum of the returned counts
+    (the signature-repulsion loop of `recombination::base::run`) -/
+inductive MutStar (ss : List Slot) : Ga → Nat → Ga → Prop
+  | refl (x) : MutStar ss x 0 x
+  | step (x y n flip ch u) : MutStar ss x n y →
+      MutStar ss x (n + (gaMutate ss flip ch u y).2) (gaMutate ss flip ch u y).1
+
+/-- what a configuration member named by the call site contributes -/
+def Code.Conf.isPMutation : Conf → Bool
+  | .pMutation => true
+  | _ => false
+
+/-- `recombination::base<i_ga>::run(parent)` following the EXTRACTED call site `code`: which individuals are crossed,
+    how often (`brood_recombination`), when the repulsion mutations may run, what is copied otherwise.
+    `Run code ss env pop sel off dcross dmut`: the call may return `off` after adding `dcross` / `dmut` to the
+    summary counters. -/
+inductive Code.GaRunCode.Run (code : GaRunCode) (ss : List Slot) (env : RunEnv) (pop : List Ga) (sel : List Nat) :
+    Ga → Nat → Nat → Prop
+  | cross (i1 i2 : Nat) (p1 p2 : Ga) (cs : List (Ga × Nat)) (off : Ga × Nat) :
+      code.lhs.Denotes sel pop.length i1 → code.rhs.Denotes sel pop.length i2 →
+      pop[i1]? = some p1 → pop[i2]? = some p2 →
+      code.broodCount = .brood → cs.length = max 1 env.brood →
+      (∀ c ∈ cs, ∃ u1 u2, MutStar ss (gaCrossover u1 u2 p1 p2) c.2 c.1 ∧
+        ((code.mutGuardPositive.isPMutation && env.pMutationPositive) = false → c.2 = 0)) →
+      off ∈ cs →
+      Run code ss env pop sel off.1 cs.length (cs.map (·.2)).sum
+  | copy (i : Nat) (p : Ga) (flip : Nat → Bool) (ch u : Nat → Nat) :
+      code.elseCopy.Denotes sel pop.length i → pop[i]? = some p →
+      Run code ss env pop sel (gaMutate ss flip ch u p).1 0 (gaMutate ss flip ch u p).2
+
+/-- `recombination::de<i_de>::run(parent)` following the extracted call site: the offspring is the trial vector of
+    the target `pop[target]` with donors `pop[a]`, `pop[b]`, base `pop[c]`, a weight satisfying `inW` when – and only
+    when – the call passes the configured `env.de.weight` -/
+inductive Code.DeRunCode.Run {F} (code : DeRunCode) (A : Arith F) (inW : F → Prop) (pop : List (De F))
+    (sel : List Nat) : De F → Prop
+  | mk (it ia ib ic : Nat) (t a b c : De F) (rf : F) (flip : Nat → Bool) :
+      code.target.Denotes sel pop.length it → code.a.Denotes sel pop.length ia →
+      code.b.Denotes sel pop.length ib → code.c.Denotes sel pop.length ic →
+      pop[it]? = some t → pop[ia]? = some a → pop[ib]? = some b → pop[ic]? = some c →
+      code.f = .deWeight → code.p = .pCross → inW rf →
+      Run code A inW pop sel (deCrossover A rf flip t a b c)
 
 end Vita.C17
